@@ -209,6 +209,7 @@ bad_nOpts:
       return ReportBadFormat();
   }
   else {         ///////////////// TEXT FORMAT ///////////////
+    bool at_line_start = true;   // a long line comes in several chunks
     for(;;) {    ///////////////// SOLVE MESSAGE /////////////
       if (!fgets(buf, sizeof(buf), f)) {
         return ReportEarlyEof();
@@ -219,8 +220,9 @@ bad_nOpts:
           *++se = 0;
           break;
         }
-      if (*buf == '\n')
+      if (*buf == '\n' && at_line_start)
         break;
+      at_line_start = se > buf && '\n' == se[-1];
       n1 = se - buf;
       b1 = buf;
       if (buf[0] == '\b' && bs) {
